@@ -35,6 +35,14 @@ ENCODINGS = ("ascii", "latin-1", "utf-8")
 ALIASES = ("ANSI_X3.4-1968", "US-ASCII", "UTF8", "utf_8", "ISO-8859-1", "latin1", "iso8859-1")
 
 
+def whole_characters(seq, enc):
+    try:
+        seq.decode(enc)
+        return True
+    except UnicodeDecodeError:
+        return False
+
+
 def classify_raise(facts, seq, exc):
     if exc == "UnicodeDecodeError" and len(seq) >= 2 and seq[:-1] in facts.prefixes and seq[-1] >= 0x80:
         return "C03:prefix-then-undecodable-byte"
@@ -90,6 +98,12 @@ def judge_node(ctx, facts, seq, res):
                     ctx.judge(ok, case, sig, "C03:wrong-name", sorted(map(repr, want)), out,
                               "buffer exhausted", nontrivial=nontrivial)
                     continue
+            if out[0] == "key" and not (tf or cf) and not whole_characters(seq, enc):
+                # valid input and a keypress is reported although the bytes so far end in the
+                # middle of a character: that character can no longer be reported as itself
+                ctx.judge(False, case, sig, "C03:character-cut-apart", "no keypress before the character is complete",
+                          out[1], "buffer exhausted" if full else None, nontrivial=nontrivial)
+                continue
             ctx.seen(sig, nontrivial)
 
 
